@@ -160,6 +160,7 @@ func musTrees() [][]musNode {
 var musMalformed = []string{
 	"{{", "{{a", "{{a}", "{{{a}}", "{{a}}}", "{{#a}}", "{{#a}}x", "{{/a}}", "x{{/a}}", "{{#a}}{{/b}}", "{{#a}}{{#b}}{{/a}}{{/b}}", "{{^a}}", "{{#if a}}x", "{{#unless a}}",
 	"{{#a}}x{{/a}", "{{{#a}}}x{{/a}}}", "{{#a}}}x{{/a}}", "{{!c", "{{#a}}{{#b}}x{{/b}}", "{{}}", "{{#}}", "{{/}}", "{{a b}}", "{{#a b}}x{{/a}}", "{{a}}{{", "{{{", "{{#a}}{{/a}}{{/a}}", "x{{/if}}", "{{#a}}b{{/a}}{{/if}}", "{{/unless}}", "text{{/if}}", "Hello{{! note }}}, {{name}}!", "{{{! c }} x {{{a}}}", "{{! c }}}",
+	"{{^if a}}x{{/if}}", "{{^unless a}}x{{/unless}}", "{{^if a}}x{{/a}}", "{{/if a}}", "{{#a}}x{{/a b}}",
 }
 
 var musxMemo map[string]*simpleVerdict
@@ -174,8 +175,9 @@ func (c *Ctx) musxRun() map[string]*simpleVerdict {
 	trees := musTrees()
 	varSets := []map[string]string{
 		{}, {"a": "v"}, {"a": ""}, {"b": "w"}, {"a": "v", "b": "w"}, {"a": "v", "b": ""}, {"A": "Up"}, {"a": "<&\"/\\\n\t>"}, {"B": "x\r\b\f", "a": "ж"}, {"a": "{{b}}", "b": "1"}, {"x_1": "X", "if1": "I"}, {"if": "yes", "unless": ""}, {"unless": "u", "a": "v"}, {"USERNAME": "U1", "aB": "v2"}, {"Username": "U2", "AB": "v3"}, {"username": "U3", "ab": "v4"},
+		{"a": " ", "b": "\n"}, {"a": "\t\r\n", "B": "\u00a0"}, {"a": "\u2003", "b": " x "},
 	}
-	res := map[string]*simpleVerdict{"render": {}, "reject": {}, "unchanged": {}}
+	res := map[string]*simpleVerdict{"render": {}, "reject": {}, "unchanged": {}, "repeat": {}}
 	var mu sync.Mutex
 	ctor := c.MustFunc("mustache", "", "NewMustacheTemplate")
 	tt := ctor.Signature.Results().At(0).Type()
@@ -185,10 +187,10 @@ func (c *Ctx) musxRun() map[string]*simpleVerdict {
 		wg.Add(1)
 		go func(w int) {
 			defer wg.Done()
-			vr, vj, vu := &simpleVerdict{}, &simpleVerdict{}, &simpleVerdict{}
+			vr, vj, vu, vp := &simpleVerdict{}, &simpleVerdict{}, &simpleVerdict{}, &simpleVerdict{}
 			defer func() {
 				mu.Lock()
-				for k, v := range map[string]*simpleVerdict{"render": vr, "reject": vj, "unchanged": vu} {
+				for k, v := range map[string]*simpleVerdict{"render": vr, "reject": vj, "unchanged": vu, "repeat": vp} {
 					t := res[k]
 					t.runs += v.runs
 					if v.bad != "" && (t.bad == "" || len(v.bad) < len(t.bad)) {
@@ -246,11 +248,16 @@ func (c *Ctx) musxRun() map[string]*simpleVerdict {
 					}
 					continue
 				}
-				for _, vars := range varSets {
+				instBefore := mFieldFingerprints(tmpl)
+				firstResults := map[int]string{}
+				for vi, vars := range varSets {
 					m.steps = 0
 					vr.runs++
 					given := mkMap(vars)
 					r, out := m.Call(eval, tmpl, given)
+					if out.kind == "ok" {
+						firstResults[vi] = mRender(r)
+					}
 					vu.runs++
 					if len(given.keys) != len(vars) && vu.bad == "" {
 						vu.bad = fmt.Sprintf("%s with %q: rendering adds entries to the caller's variable map (%d keys afterwards)", show, vars, len(given.keys))
@@ -285,6 +292,23 @@ func (c *Ctx) musxRun() map[string]*simpleVerdict {
 						vr.bad = fmt.Sprintf("%s with variables %q renders %q; the reference semantics give %q", show, vars, got, want)
 					}
 				}
+				// rendering is repeatable and leaves the compiled template alone: the same variables again, after
+				// all the other sets, give the same text, and nothing reachable from the instance has changed
+				for _, vi := range []int{1, 4, 0} {
+					first, ok := firstResults[vi]
+					if !ok {
+						continue
+					}
+					m.steps = 0
+					vp.runs++
+					r, out := m.Call(eval, tmpl, mkMap(varSets[vi]))
+					if out.kind == "ok" && mRender(r) != first && vp.bad == "" {
+						vp.bad = fmt.Sprintf("%s with variables %q renders %s the first time and %s after renderings with other variable sets", show, varSets[vi], first, mRender(r))
+					}
+				}
+				if ch := changedFields(tt, instBefore, mFieldFingerprints(tmpl)); len(ch) > 0 && vp.bad == "" {
+					vp.bad = fmt.Sprintf("%s: rendering writes the template instance (state reachable from its field %s differs afterwards): the compiled template is modified, concurrent renderings race on it", show, strings.Join(ch, ", "))
+				}
 			}
 			for i := w; i < len(musMalformed); i += nw {
 				src := musMalformed[i]
@@ -302,6 +326,15 @@ func (c *Ctx) musxRun() map[string]*simpleVerdict {
 				if _, isNil := e.(mNilT); isNil && vj.bad == "" {
 					vj.bad = fmt.Sprintf("malformed template %q is accepted", src)
 				}
+				// the same text submitted again to the same instance is still malformed
+				m.steps = 0
+				if e2, out2 := m.Call(set, tmpl, src); out2.kind == "ok" {
+					if _, isNil := e2.(mNilT); isNil && vj.bad == "" {
+						vj.bad = fmt.Sprintf("malformed template %q is rejected the first time and accepted when submitted again to the same instance", src)
+					}
+				} else if out2.kind == "panic" && vj.bad == "" {
+					vj.bad = fmt.Sprintf("malformed template %q submitted twice: SetTemplate panics: %s", src, out2.why)
+				}
 			}
 		}(w)
 	}
@@ -312,7 +345,7 @@ func (c *Ctx) musxRun() map[string]*simpleVerdict {
 
 func init() {
 	register(&Rule{ID: "MUS.reference", Floor: 3,
-		Doc: "the template engine evaluated abstractly (NewMustacheTemplate, SetTemplate, EvaluateWithVariables) on templates printed from generated syntax trees (text with braces/quotes, variables, escaped variables, comments, sections and inverted sections in 8 spellings each, nested, empty, adjacent) × 16 variable maps (present, empty, absent, other key case, values needing escapes): the rendering equals the statement's semantics; 34 malformed templates are rejected",
+		Doc: "the template engine evaluated abstractly (NewMustacheTemplate, SetTemplate, EvaluateWithVariables) on templates printed from generated syntax trees (text with braces/quotes, variables, escaped variables, comments, sections and inverted sections in 8 spellings each, nested, empty, adjacent) × 19 variable maps (present, empty, white-space-only, absent, other key case, values needing escapes): the rendering equals the statement's semantics, is the same when repeated after other variable sets and leaves the instance unchanged; 39 malformed templates are rejected, also when submitted twice",
 		Run: func(c *Ctx) []*Obligation {
 			o := newObl("MUS.reference")
 			res := c.musxRun()
@@ -320,6 +353,7 @@ func init() {
 			o.list = append(o.list, emitSimple(c, "MUS.reference", "mustache.MustacheTemplate#renders-reference-semantics", pos, res["render"], "renderings equal the reference semantics")...)
 			o.list = append(o.list, emitSimple(c, "MUS.reference", "mustache.MustacheTemplate#rejects-malformed", pos, res["reject"], "malformed templates are rejected")...)
 			o.list = append(o.list, emitSimple(c, "MUS.reference", "mustache.MustacheTemplate#leaves-variables-unchanged", pos, res["unchanged"], "renderings leave the caller's variable map unchanged")...)
+			o.list = append(o.list, emitSimple(c, "MUS.reference", "mustache.MustacheTemplate#renders-repeatably", pos, res["repeat"], "repeated renderings agree and leave the template instance unchanged")...)
 			return o.list
 		}})
 }
